@@ -361,6 +361,16 @@ class Interp:
                         raise AnalysisError(f"absint: missing argument {p} for {fnode.name}")
             if fnode.args.vararg:
                 env[fnode.args.vararg.arg] = list(args[len(params):])
+            for ka, kd in zip(fnode.args.kwonlyargs, fnode.args.kw_defaults):
+                if kwargs and ka.arg in kwargs:
+                    env[ka.arg] = kwargs[ka.arg]
+                elif kd is not None:
+                    env[ka.arg] = self.expr(kd, {})
+                else:
+                    raise AnalysisError(f"absint: missing keyword-only argument {ka.arg} for {fnode.name}")
+            if fnode.args.kwarg:
+                named = set(params) | {a.arg for a in fnode.args.kwonlyargs}
+                env[fnode.args.kwarg.arg] = {k_: v_ for k_, v_ in (kwargs or {}).items() if k_ not in named}
             r = self.block(fnode.body, env)
             return r.value if isinstance(r, _Ret) else None
         finally:
@@ -690,6 +700,10 @@ class Interp:
             return f.fn(*args)
         if isinstance(f, _Bound):
             return self.call_f(f.func, [f.obj] + list(args))
+        if isinstance(f, _Closure):
+            return self.call_func(f.node, list(args), None, base_env=f.env)
+        if isinstance(f, _DictMeth) and f.name in ("get", "setdefault"):
+            return getattr(f.d, f.name)(*args)
         if hasattr(f, "node") and hasattr(f, "module"):
             return self.call_f(f, list(args))
         raise AnalysisError("absint: value is not callable")
@@ -824,6 +838,15 @@ class Interp:
                 raise AnalysisError(f"absint: class {base.name} has no method {e.attr}")
             if isinstance(base, (list, tuple)) and e.attr == "count":
                 return _PyCall(lambda x, _b=base: sum(1 for y in _b if self.equal(x, y)))
+            if isinstance(base, list) and e.attr in ("pop", "insert", "reverse", "clear"):
+                return _PyCall(getattr(base, e.attr))
+            if isinstance(base, list) and e.attr == "sort":
+                def _sort(key=None, reverse=False, _b=base):
+                    try:
+                        _b.sort(key=(lambda x: self.apply(key, [x])) if key is not None else None, reverse=bool(reverse))
+                    except TypeError:
+                        raise AnalysisError("absint: sort() of incomparable items")
+                return _PyCall(_sort)
             if isinstance(base, (list, tuple)) and e.attr in ("copy", "index", "append", "extend", "remove"):
                 return _ListMeth(base, e.attr)
             if isinstance(base, set) and e.attr in ("add", "discard", "update", "copy"):
@@ -1175,8 +1198,41 @@ class Interp:
                         return None
                 raise Raised("ValueError")
         if hasattr(f, "node") and isinstance(f.node, ast.FunctionDef):
+            if hasattr(f, "module") and vals and any((dotted(d) or "").split(".")[-1] == "singledispatch" for d in f.node.decorator_list):
+                f = self.dispatch(f, vals[0])
             return self.call_f(f, vals, kw) if hasattr(f, "module") else self.call_func(f.node, vals, kw)
         raise AnalysisError(f"absint: cannot call `{ast.unparse(e.func)}`")
+
+    def class_chain(self, x) -> list[str]:
+        """Class names of a value, most specific first (sample nodes: own class, LNodes bases, `extra_bases`, transitively)."""
+        if isinstance(x, PyNative):
+            return [c.__name__ for c in type(x).__mro__]
+        if isinstance(x, Node):
+            out, todo = [], [x.cls]
+            while todo:
+                c = todo.pop(0)
+                if c in out:
+                    continue
+                out.append(c)
+                todo.extend(self.classes[c].bases if c in self.classes else [])
+                todo.extend(self.extra_bases.get(c, ()))
+            return out + ["object"]
+        return [c.__name__ for c in type(x).__mro__]
+
+    def dispatch(self, f, first):
+        """functools.singledispatch: the implementation registered (in f's module, `@<f>.register(Cls)`) for the most specific
+        class of the first argument; the generic function otherwise."""
+        name = f.node.name
+        table: dict[str, object] = {}
+        for g in f.module.funcs.values():
+            for d in g.node.decorator_list:
+                if isinstance(d, ast.Call) and isinstance(d.func, ast.Attribute) and d.func.attr == "register" and dotted(d.func.value) == name and d.args:
+                    for t_ in (d.args[0].elts if isinstance(d.args[0], ast.Tuple) else [d.args[0]]):
+                        table[(dotted(t_) or ast.unparse(t_)).split(".")[-1]] = g
+        for c in self.class_chain(first):
+            if c in table:
+                return table[c]
+        return f
 
 
 class _Ret:
